@@ -13,7 +13,7 @@ Overview: Provides reusable helper functions to eliminate duplication across lin
 Dependencies: BaseLintContext from src.core.base, ast for Python parsing
 
 Exports: get_metadata, get_metadata_value, load_linter_config, has_file_content, parse_python_ast,
-    with_parsed_python, resolve_file_path, is_ignored_path, path_in_project, get_line_context
+    with_parsed_python, resolve_file_path, is_ignored_path, path_in_project, drop_suppressed, get_line_context
 
 Interfaces: All functions take BaseLintContext and return typed values (dict, str, bool, Any)
 
@@ -327,6 +327,23 @@ def is_ignored_path(file_path: str, ignore_patterns: list[str]) -> bool:
         True if the path should be ignored
     """
     return any(ignored in file_path for ignored in ignore_patterns)
+
+
+def drop_suppressed(violations: list[Violation], context: BaseLintContext) -> list[Violation]:
+    """Remove the violations that a `thailint: ignore` directive in the file silences.
+
+    Args:
+        violations: Violations found in the file of this context
+        context: Lint context with the file content
+
+    Returns:
+        Violations not covered by a same-line, next-line, block or file-level directive
+    """
+    from src.linter_config.ignore import get_ignore_parser
+
+    parser = get_ignore_parser()
+    content = context.file_content or ""
+    return [v for v in violations if not parser.should_ignore_violation(v, content)]
 
 
 def get_line_context(code: str, line_index: int) -> str:
